@@ -6,6 +6,7 @@ import (
 	"encoding/json"
 	"errors"
 	"fmt"
+	"math"
 	"os"
 	"reflect"
 	"runtime/debug"
@@ -229,6 +230,9 @@ func buildWith(g *gGrammar, k int, extra ...participle.Option) (b *built, err er
 		st := reflect.StructOf(sf)
 		types[p.Name] = st
 		names[st] = p.Name
+	}
+	if k == 99999 {
+		k = participle.MaxLookahead // the case files' 99999 stands for the library's named constant, whatever its value
 	}
 	opts := []participle.Option{participle.Lexer(coreLexer), participle.Elide("WS", "Comment"), participle.UseLookahead(k)}
 	unames := []string{}
@@ -945,6 +949,20 @@ func parseEvents(args []string) error {
 	return nil
 }
 
+// saturating arithmetic on lookahead values (the library's MaxLookahead is whatever the tree under test says)
+func satAdd(a, b int) int {
+	if a > math.MaxInt-b {
+		return math.MaxInt
+	}
+	return a + b
+}
+func satMul(a, b int) int {
+	if a > math.MaxInt/b {
+		return math.MaxInt
+	}
+	return a * b
+}
+
 func init() { commands["lookahead-big"] = lookaheadBig }
 
 type bigLA struct {
@@ -964,7 +982,7 @@ func lookaheadBig(args []string) error {
 	// more than MaxLookahead productions open inside one another
 	debug.SetMaxStack(2 << 30)
 	deep := strings.Repeat("(", n+8) + "x" + strings.Repeat(")", n+8)
-	for _, k := range []int{1, 3, participle.MaxLookahead, 3 * participle.MaxLookahead, -1, -7} {
+	for _, k := range []int{1, 3, participle.MaxLookahead, satMul(participle.MaxLookahead, 3), -1, -7} {
 		res := runGuardedFor(300*time.Second, func() string {
 			p, err := participle.Build[deepLA](participle.UseLookahead(k))
 			if err != nil {
@@ -983,7 +1001,7 @@ func lookaheadBig(args []string) error {
 		fmt.Printf("deep\t%d\t%s\n", k, res)
 	}
 	in := strings.Repeat("x ", n) + "?"
-	for _, k := range []int{0, 1, participle.MaxLookahead, participle.MaxLookahead + 50000, -1, -7} {
+	for _, k := range []int{0, 1, participle.MaxLookahead, satAdd(participle.MaxLookahead, 50000), -1, -7} {
 		res := runGuardedFor(120*time.Second, func() string {
 			p, err := participle.Build[bigLA](participle.UseLookahead(k))
 			if err != nil {
@@ -1020,7 +1038,7 @@ type bigLeakLook struct {
 func leakBig(args []string) error {
 	for _, n := range []int{3, 1023, 1024, 1025, 1500, 5000} {
 		in := strings.Repeat("x ", n) + "."
-		for _, k := range []int{-1, 2 * participle.MaxLookahead} {
+		for _, k := range []int{-1, satMul(participle.MaxLookahead, 2)} {
 			run := func(name string, f func() (int, int, error)) {
 				res := runGuardedFor(120*time.Second, func() string {
 					a, b, err := f()
